@@ -1,5 +1,7 @@
 import RoaringModel.Lemmas.IOLemmas
 import RoaringModel.Lemmas.RoundTrip
+import RoaringModel.Lemmas.TreemapCodec
+import RoaringModel.Lemmas.TreemapCodecWF
 /-!
 # C14 — I/O faults surface as errors; read/write chunking is irrelevant (32-bit half)
 
@@ -107,6 +109,85 @@ theorem C14_write (b : Bitmap) (room : Nat) (zeroMode : Bool) (sched : List IoEv
 
 example : (Bitmap.serializeInto [{ key := 7, store := .array [5] }]
     { accRev := [], room := 5, zeroMode := true, sched := [.chunk 3, .intr, .chunk 1] }).2.bytes = [58, 48, 0, 0, 1] := by
+  decide
+
+end Roaring.C14
+
+/-!
+# C14, 64-bit half — `RoaringTreemap`
+
+The treemap decoder is the same abstract-reader program (`Treemap.deserializeG R`), so the schedule-independence
+and the prefix theorem lift through the bucket loop (`Lemmas/TreemapCodec.lean`); the writer hands the sink the
+`u64` count, then per partition the `u32` key and the 32-bit fields, each through `write_all`.
+-/
+namespace Roaring.C14
+open Roaring Roaring.Parser
+
+/-- Decoding a treemap (either decoder, either build configuration) through any scheduled reader gives the
+    result of decoding the plain byte list: same value and same unread bytes, or the same error. -/
+theorem C14_t_decode_sched (chk dbg : Bool) (data : List Nat) (sched : List IoEv) :
+    (Treemap.deserializeSched chk dbg data sched).map (fun r => (r.1, r.2.data))
+      = Treemap.deserialize chk dbg data := by
+  have hR : ∀ n, Sim SReader.data (SReader.readExact n) (readN n) := by
+    intro n r
+    exact readExactS_eq r.sched r.data n
+  exact Treemap.sim_deserializeG hR chk dbg ⟨data, sched⟩
+
+/-- Every strict prefix of a stream that decodes completely is an error — `UnexpectedEof`, never a value,
+    never a panic.  Holds for *every* stream the decoder accepts (any bucket order, run chunks, …). -/
+theorem C14_t_prefix (chk dbg : Bool) (bs : List Nat) (t : Treemap)
+    (h : Treemap.deserialize chk dbg bs = .ok (t, [])) (k : Nat) (hk : k < bs.length) :
+    Treemap.deserialize chk dbg (bs.take k) = .error .eof :=
+  strict_prefix_eof _ (Treemap.mono_deserializeG chk dbg) bs t h k hk
+
+/-- Every strict prefix of a serialisation the crate writes is an error (EOF), for both decoders. -/
+theorem C14_t_prefix_serialize (chk dbg : Bool) (t : Treemap) (h : Treemap.WFd Bitmap.WF t) (k : Nat)
+    (hk : k < (Treemap.serialize t).length) :
+    Treemap.deserialize chk dbg ((Treemap.serialize t).take k) = .error .eof := by
+  have hd : Treemap.deserialize chk dbg (Treemap.serialize t) = .ok (t, []) := by
+    have := Treemap.deserialize_serialize_wf chk dbg t h []
+    simpa using this
+  exact C14_t_prefix chk dbg _ t hd k hk
+
+/-- If decoding stops with `rest` unread, every prefix shorter than the consumed part is an EOF error. -/
+theorem C14_t_prefix_rest (chk dbg : Bool) (bs rest : List Nat) (t : Treemap)
+    (h : Treemap.deserialize chk dbg bs = .ok (t, rest)) (k : Nat) (hk : k < bs.length - rest.length) :
+    Treemap.deserialize chk dbg (bs.take k) = .error .eof := by
+  obtain ⟨used, hbs, _, hpre⟩ := Treemap.mono_deserializeG chk dbg bs t rest h
+  subst hbs
+  have hk' : k < used.length := by simp at hk; omega
+  have := hpre k hk'
+  rwa [List.take_append_of_le_length (by omega)]
+
+/-- the buffers handed to `write_all` by the treemap's `serialize_into`, concatenated, are the serialisation -/
+theorem C14_t_serializeFields_flatten (t : Treemap) :
+    (Treemap.serializeFields t).flatten = Treemap.serialize t :=
+  Treemap.serializeFields_flatten t C14_serializeFields_flatten
+
+/-- A sink that accepts `room` bytes — in whatever chunk sizes, interrupted however often, failing with `Err`
+    or `Ok(0)` — receives exactly the first `room` bytes of the serialisation, and `serialize_into` returns
+    `Ok` iff everything fit. -/
+theorem C14_t_write (t : Treemap) (room : Nat) (zeroMode : Bool) (sched : List IoEv) :
+    (Treemap.serializeInto t { accRev := [], room := room, zeroMode := zeroMode, sched := sched }).2.bytes
+        = (Treemap.serialize t).take room ∧
+    ((Treemap.serializeInto t { accRev := [], room := room, zeroMode := zeroMode, sched := sched }).1 = true
+        ↔ (Treemap.serialize t).length ≤ room) := by
+  have h := writeFields_spec (Treemap.serializeFields t)
+    { accRev := [], room := room, zeroMode := zeroMode, sched := sched }
+  rw [C14_t_serializeFields_flatten] at h
+  simpa [SWriter.bytes, Treemap.serializeInto] using h
+
+/-- a one-partition treemap through an interrupting one/three-byte reader; its serialisation cut inside the
+    `u32` key; a sink that fails inside the `u64` count -/
+example : Treemap.deserializeSched true true
+    [1, 0, 0, 0, 0, 0, 0, 0, 3, 0, 0, 0, 58, 48, 0, 0, 1, 0, 0, 0, 7, 0, 0, 0, 16, 0, 0, 0, 5, 0]
+    [.intr, .chunk 1, .intr, .chunk 3] =
+    .ok ([(3, [{ key := 7, store := .array [5] }])], ⟨[], []⟩) := by rfl
+example : Treemap.deserialize true true
+    ([1, 0, 0, 0, 0, 0, 0, 0, 3, 0, 0, 0, 58, 48, 0, 0, 1, 0, 0, 0, 7, 0, 0, 0, 16, 0, 0, 0, 5, 0].take 10) = .error .eof := by
+  rfl
+example : (Treemap.serializeInto [(3, [{ key := 7, store := .array [5] }])]
+    { accRev := [], room := 5, zeroMode := true, sched := [.chunk 3, .intr, .chunk 1] }).2.bytes = [1, 0, 0, 0, 0] := by
   decide
 
 end Roaring.C14
